@@ -31,7 +31,7 @@ func init() {
 			{ID: "C01.c", Title: "TIME-GUARD", Template: "T7", MinInst: 1,
 				Rule: "for ts < tree.Time and ts == tree.Time the only reachable outcomes of the sequencing function are fatal returns (no sign, no CAS); ts is the single clock reading of the round and is the time signed",
 				Run:  c01c},
-			{ID: "C01.d", Title: "STATE-AFTER-CAS", Template: "T4+T1", MinInst: 3,
+			{ID: "C01.d", Title: "STATE-AFTER-CAS", Template: "T4+T1", MinInst: 6,
 				Rule: "stores to Log.tree / lockCheckpoint / edgeTiles occur only in the sequencing function and no non-fatal return is reachable from such a store without crossing the success edge of Replace",
 				Run:  c01d},
 			{ID: "C01.e", Title: "CAS-OPERAND", Template: "T6+T4", MinInst: 3,
@@ -434,6 +434,75 @@ func c01d(c *Ctx) {
 		}
 		if nIn == 0 {
 			c.Unk("Log."+field, "no store to the field found in the sequencing function")
+		}
+	}
+	// the converse: once the CAS has succeeded the whole in-memory state advances with it, on
+	// every path, before anything else of the round (tile application, publication, return)
+	for _, f := range sequencers(c.P) {
+		g := f.Graph()
+		repl := f.CallsW(specLockRepl)
+		succ, _ := gateEdges(repl, OutNil)
+		var next []Site
+		next = append(next, f.CallsW(specApply)...)
+		next = append(next, checkpointUploads(f)...)
+		for _, r := range f.Returns() {
+			next = append(next, r)
+		}
+		var signed types.Object
+		for _, s := range f.Calls(specSignTreeHead) {
+			signed = objOf(f.Info(), argByName(f.Info(), s.Call, "tree"))
+		}
+		for _, field := range []string{"tree", "lockCheckpoint", "edgeTiles"} {
+			inst := fmt.Sprintf("%s advances Log.%s with every successful CAS", f.Name, field)
+			fv := c.P.fieldVar(pkgCtlog, "Log", field)
+			var sts []Site
+			okVal := true
+			for _, st := range f.StoresTo(fv) {
+				if st.Direct {
+					sts = append(sts, st.Site)
+					switch field {
+					case "tree":
+						if signed == nil || st.Rhs == nil || objOf(f.Info(), st.Rhs) != signed {
+							okVal = false
+						}
+					case "lockCheckpoint":
+						if _, isRepl := f.IsCallResultW(st.Rhs, 0, specLockRepl); !isRepl {
+							okVal = false
+						}
+					}
+				}
+			}
+			if len(succ) == 0 || len(sts) == 0 {
+				c.Unk(inst, "CAS success edge / store not found")
+				continue
+			}
+			stop := func(p Point, _ ast.Node) bool {
+				for _, s := range sts {
+					if s.P == p {
+						return true
+					}
+				}
+				return false
+			}
+			bad := false
+			for e := range succ {
+				if g.dead[e] {
+					continue
+				}
+				if pt, path := g.Reach(EdgeStart(e), Cut{Stop: stop}, atAnySite(next)); pt != nil {
+					c.Bad(inst, f.Pos(pt.B.Nodes[pt.I]), fmt.Sprintf("after the lock backend accepted the new checkpoint the round can go on (or return) without advancing Log.%s (path %s): the next round would start from a state that is not the committed one", field, g.describePath(path)))
+					bad = true
+					break
+				}
+			}
+			if bad {
+				continue
+			}
+			if !okVal {
+				c.Bad(inst, sts[0].Pos(), "Log."+field+" is not set to the value that was committed (the signed tree head / the handle returned by the CAS)")
+				continue
+			}
+			c.add(Result{Instance: inst, Verdict: Discharged, Evals: len(succ), Sites: sitePositions(sts), Detail: "from the CAS success edge neither the tile application, the publication nor a return is reached without the store; the value stored is the committed one"})
 		}
 	}
 }
